@@ -62,7 +62,7 @@ func previewGroups(s *tty.Session) map[int][]tty.Proc {
 
 func workerC20(r *vk.Run, w, n int, args []string) {
 	rng := rand.New(rand.NewSource(r.Seed*9001 + int64(w)*151 + 4))
-	sessions := 320
+	sessions := 240
 	if !r.Quick() {
 		sessions = 1000
 	}
@@ -79,6 +79,16 @@ func sessionC20(r *vk.Run, rng *rand.Rand, wkr, idx int) {
 	for i := 0; i < nitems; i++ {
 		lines = append(lines, fmt.Sprintf("it%02d %s", i, []string{"ab", "ba", "a1", "b2"}[i%4]))
 	}
+	altPath := filepath.Join(vk.Scratch(), fmt.Sprintf("c20-alt-%d-%d-%d", os.Getpid(), wkr, idx))
+	var alt []string
+	for i := 0; i < nitems; i++ {
+		alt = append(alt, fmt.Sprintf("re%02d %s", i, []string{"ab", "ba", "a1", "b2"}[i%4]))
+	}
+	os.WriteFile(altPath, []byte(joinLines(alt)), 0o644)
+	defer os.Remove(altPath)
+	origPath := altPath + ".orig"
+	os.WriteFile(origPath, []byte(joinLines(lines)), 0o644)
+	defer os.Remove(origPath)
 	multi := rng.Intn(2) == 0
 	tmpl := func(tag string) string {
 		t := "sh " + shq(script) + " " + tag + " {n} {q} {}"
@@ -146,7 +156,7 @@ func sessionC20(r *vk.Run, rng *rand.Rand, wkr, idx int) {
 		var posts []string
 		for b := 0; b < burst; b++ {
 			var a string
-			switch c := rng.Intn(14); {
+			switch c := rng.Intn(15); {
 			case c < 5:
 				a = []string{"up", "down", "up", "down", "first", "last", "page-up"}[rng.Intn(7)]
 				kinds["move"] = true
@@ -176,6 +186,10 @@ func sessionC20(r *vk.Run, rng *rand.Rand, wkr, idx int) {
 				a = "toggle-preview"
 				hidden = !hidden
 				kinds["toggle-preview"] = true
+			case c < 14 && !concurrent && rng.Intn(2) == 0:
+				// another list of the same length: the line under the cursor changes although its position does not
+				a = "reload(cat " + shq([]string{altPath, origPath}[rng.Intn(2)]) + ")"
+				kinds["reload"] = true
 			default:
 				a = "pos(" + fmt.Sprint(1+rng.Intn(nitems)) + ")"
 				kinds["move"] = true
@@ -312,6 +326,31 @@ func sessionC20(r *vk.Run, rng *rand.Rand, wkr, idx int) {
 			fail("", fmt.Sprintf("the preview pane does not show the output of the last invocation (nonce %s)", nonce), map[string]any{"screen": scrn})
 			return
 		}
+		// the complete output of a finishing invocation must end up in the pane (class 1: DONE, class 3: chunk 5)
+		if cls := st.Current.Index % 4; cls == 1 || cls == 3 {
+			want := map[int]string{1: "DONE", 3: "chunk 5"}[cls]
+			shown := false
+			scrn, _ := s.Capture()
+			if !previewPaneTallEnough(scrn) {
+				shown = true // the window is too short to hold the whole output: nothing to judge
+			}
+			for poll := 0; poll < 80 && !shown; poll++ {
+				scrn, _ = s.Capture()
+				if strings.Contains(strings.Join(scrn, "\n"), want) {
+					shown = true
+					break
+				}
+				if r2 := readPreviewLog(logPath); len(r2) > 0 && !matches(r2[len(r2)-1]) {
+					shown = true // superseded meanwhile (resize / refresh): not this round's business
+				}
+				time.Sleep(50 * time.Millisecond)
+			}
+			r.Count("complete_output_checks", 1)
+			if !shown && previewPaneTallEnough(scrn) {
+				fail("", fmt.Sprintf("the preview finished but its last output line %q never appeared in the pane", want), map[string]any{"screen": scrn})
+				return
+			}
+		}
 		if !sampleAlive("at quiescence") {
 			return
 		}
@@ -377,4 +416,24 @@ func tailS(a []string, n int) []string {
 		return a[len(a)-n:]
 	}
 	return a
+}
+
+// previewPaneTallEnough: at least 7 rows of the preview window lie below (and including) the marker
+// line, i.e. nonce, arguments and five chunks fit without scrolling. Rows are counted down to the
+// bottom border of the window.
+func previewPaneTallEnough(scrn []string) bool {
+	for i, l := range scrn {
+		if !strings.Contains(l, "@") {
+			continue
+		}
+		rows := 0
+		for j := i; j < len(scrn); j++ {
+			if strings.ContainsAny(scrn[j], "╰└╯┘") && j > i {
+				break
+			}
+			rows++
+		}
+		return rows >= 7
+	}
+	return false
 }
